@@ -14,6 +14,8 @@ pub mod prop_c08_scan;
 pub mod prop_c10;
 pub mod prop_c11;
 pub mod prop_c12;
+pub mod prop_c16;
+pub mod prop_c18;
 
 use framework::PropertyDef;
 
@@ -27,6 +29,8 @@ pub fn registry() -> Vec<PropertyDef> {
         prop_c10::def(),
         prop_c11::def(),
         prop_c12::def(),
+        prop_c16::def(),
+        prop_c18::def(),
     ]
 }
 
